@@ -1,10 +1,19 @@
-"""C18 bounded stand-in: generated ssh_config files resolved by asyncssh (real SSHClientConfig.load under
-/venv/bin/python, code taken from PYVC_REPO) versus OpenSSH itself (`ssh -G -F <file> <host>`).
+"""C18 bounded stand-ins: asyncssh (real code from PYVC_REPO under /venv/bin/python) versus OpenSSH itself
+(`ssh -G -F <file> [-l user] [-p port] <host>`), and versus the documented expansion rules where ssh -G cannot be
+used (it prints IdentityFile / ProxyCommand unexpanded).
 
-Not a proof: a seeded sample of small files over Host/Match blocks (negation, several criteria, Match after a
-Hostname rewrite), keyword spellings (case, `=`, quotes), first-value-wins, `none`, accumulating options.
-Left out on purpose (asyncssh and ssh are known/expected to differ or need the network): Match exec / canonical /
-final / localnetwork, trailing '#' comments, `none` for options that are not none-aware in OpenSSH.
+Not proofs.  Every entry below that fails on the unchanged tree contains ONLY the failing cases of one recorded defect
+(known findings are matched by obligation name), everything else that exercises the same scenario lives in an entry
+that passes on the unchanged tree, so that a new disagreement is reported as a new violation.
+
+The generated sample: small files over Host/Match blocks (negation, several criteria, Match after a Hostname
+rewrite), keyword spellings (case, `=`, quotes), first-value-wins, `none`, accumulating options, verbatim keywords
+(ProxyCommand / RemoteCommand), a trailing `Match final` block resolved with the two-pass driver of connection.py,
+loads of two files (ssh: a wrapper with two Include lines), caller-supplied user / port (ssh: -l / -p), plus
+hand-written Include and `=` files.  Left out of the sample on purpose (each has its own fixed entry or is noted in
+the sidecar): Match exec / canonical / localnetwork, `Match final` anywhere but last (asyncssh restarts the final
+pass from the base options, ssh keeps first-pass values), trailing '#' comments, `=` after a verbatim keyword,
+`none` for options that are not none-aware in OpenSSH.
 """
 import json
 import os
@@ -17,7 +26,8 @@ SSH = '/usr/bin/ssh'
 HOSTS = ['alpha', 'beta.example.com', 'gw1', 'special', 'alpha.example.com']
 PATTERNS = ['*', 'alpha', 'beta*', '*.example.com', 'gw?', '!gw1', 'special', 'a*', '!alpha', '*.example.com,!beta*',
             'gw1,special', '?????']
-USERPATS = ['root', 'alice', 'bob', '*', 'a*', '!alice']
+HOST_LINE_PATTERNS = [p_ for p_ in PATTERNS if ',' not in p_] + ['Alpha']     # Host lines: no comma lists; case matters
+USERPATS = ['root', 'alice', 'bob', 'carol', '*', 'a*', '!alice']
 
 # keyword -> candidate values (as written in the file)
 OPTIONS = {
@@ -37,18 +47,46 @@ OPTIONS = {
     'BindAddress': ['10.0.0.1', '10.0.0.2'],
     'IdentityFile': ['/k/id1', '/k/id2', '/k/id3'],
     'RequestTTY': ['yes', 'no', 'force', 'auto'],
+    # verbatim keywords: the rest of the line, inner spacing and quotes kept (token-free: ssh -G prints them unexpanded)
+    'ProxyCommand': ['nc  -q0 "x y"   22', 'ssh -W gw:22 bastion'],
+    'RemoteCommand': ['echo  "a  b" c', 'uptime'],
 }
+VERBATIM = ('ProxyCommand', 'RemoteCommand')
 
 
-def gen_config(rnd):
+def gen_config(rnd, final_block=False):
+    """final_block: the file ends with a `Match final` block (resolved in two passes); such a file sets neither
+    Hostname nor User, because ssh re-reads the whole file in the final pass with the FIRST-pass host / user while
+    asyncssh resolves the final pass from scratch (recorded separately as a fixed entry)"""
+    keys = [k for k in OPTIONS if not (final_block and k in ('Hostname', 'User'))]
     lines = []
+
+    def option_lines(n):
+        for _o in range(n):
+            key = rnd.choice(keys)
+            val = rnd.choice(OPTIONS[key])
+            spell = rnd.choice([key, key.lower(), key.upper(), key])
+            form = rnd.random()
+            if key in VERBATIM:
+                lines.append(rnd.choice([f'  {spell} {val}', f'\t{spell}   {val}  ']))
+            elif form < 0.55:
+                lines.append(f'  {spell} {val}')
+            elif form < 0.7:
+                lines.append(f'  {spell}={val}')
+            elif form < 0.8:
+                lines.append(f'  {spell} = {val}')
+            elif form < 0.9 and ' ' not in val and key != 'ProxyJump':     # ssh keeps the quotes of ProxyJump
+                lines.append(f'  {spell} "{val}"')
+            else:
+                lines.append(f'\t{spell}   {val}  ')
+
     for _b in range(rnd.randint(1, 4)):
         kind = rnd.random()
         if _b == 0 and kind < 0.3:
             pass                                  # options before any block: apply to every host
         elif kind < 0.6:
             lines.append(rnd.choice(['Host ', 'host ', 'HOST ', 'Host=']) +
-                         ' '.join(rnd.sample([p_ for p_ in PATTERNS if ',' not in p_], rnd.randint(1, 3))))
+                         ' '.join(rnd.sample(HOST_LINE_PATTERNS, rnd.randint(1, 3))))
         elif kind < 0.92:
             crits = []
             for _c in range(rnd.randint(1, 2)):
@@ -59,25 +97,15 @@ def gen_config(rnd):
             lines.append('Match ' + ' '.join(crits))
         else:
             lines.append('Match all')
-        for _o in range(rnd.randint(1, 4)):
-            key = rnd.choice(list(OPTIONS))
-            val = rnd.choice(OPTIONS[key])
-            spell = rnd.choice([key, key.lower(), key.upper(), key])
-            form = rnd.random()
-            if form < 0.55:
-                lines.append(f'  {spell} {val}')
-            elif form < 0.7:
-                lines.append(f'  {spell}={val}')
-            elif form < 0.8:
-                lines.append(f'  {spell} = {val}')
-            elif form < 0.9 and ' ' not in val and key != 'ProxyJump':     # ssh keeps the quotes of ProxyJump
-                lines.append(f'  {spell} "{val}"')
-            else:
-                lines.append(f'\t{spell}   {val}  ')
+        option_lines(rnd.randint(1, 4))
         if rnd.random() < 0.2:
             lines.append('# a comment line')
         if rnd.random() < 0.2:
             lines.append('')
+    if final_block:
+        extra = rnd.choice(['', ' host ' + rnd.choice(PATTERNS), ' !originalhost ' + rnd.choice(PATTERNS)])
+        lines.append(rnd.choice(['Match final', 'match FINAL']) + extra)
+        option_lines(rnd.randint(1, 3))
     return '\n'.join(lines) + '\n'
 
 
@@ -89,19 +117,27 @@ def fixed_files(d):
         'fixed_include.conf': f'Include {d}/inc_?.conf\nPort 2222\nHost special\n  Include {d}/inc_sub.conf\n  '
                               'ConnectTimeout 30\n',
         'fixed_equals.conf': 'HostKeyAlias=a=b\nBindAddress = 10.0.0.1\nSetEnv A=1 B=2\nUser =bob\nPort= 2200\n'
-                             'SendEnv=X Y\nCompression= yes\n',
+                             'SendEnv=X Y\nCompression= yes\nMatch host="spec*" user=bob\n  ConnectTimeout=7\n',
+        'fixed_final.conf': 'Host Special\n  Port 1\nHost special\n  Port 2222\nMatch final host special\n'
+                            '  HostKeyAlias fin\n',
     }
 
 
+# One job = one resolution the way connection.py drives it: first pass, then - iff the config asked for it with a
+# `Match final` - a final pass on top of the first one (reload=True, final=True)
 ASYNCSSH_DRIVER = r'''
 import json, sys, socket
 from asyncssh.config import SSHClientConfig
 jobs = json.load(sys.stdin)
 out = []
 AF = {socket.AF_UNSPEC: 'any', socket.AF_INET: 'inet', socket.AF_INET6: 'inet6'}
-for path, host, luser in jobs:
+for job in jobs:
     try:
-        c = SSHClientConfig.load(None, [path], False, False, False, luser, (), host, ())
+        user = job['user'] if job['user'] is not None else ()
+        port = job['port'] if job['port'] is not None else ()
+        c = SSHClientConfig.load(None, job['paths'], False, False, False, job['luser'], user, job['host'], port)
+        if c.has_match_final():
+            c = SSHClientConfig.load(c, job['paths'], True, False, True, job['luser'], user, job['host'], port)
         o = dict(c._options)
         if 'AddressFamily' in o:
             o['AddressFamily'] = AF[o['AddressFamily']]
@@ -127,6 +163,8 @@ def normalise_asyncssh(o, host, luser):
     n['addressfamily'] = o.get('AddressFamily', 'any')
     n['hostkeyalias'] = o.get('HostKeyAlias')
     n['bindaddress'] = o.get('BindAddress')
+    n['proxycommand'] = o.get('ProxyCommand')
+    n['remotecommand'] = o.get('RemoteCommand')
     # ssh drops an IdentityFile that is already registered; asyncssh keeps the duplicate (same keys are then tried
     # twice - benign): compared modulo duplicates, order preserved
     n['identityfile'] = list(dict.fromkeys(o['IdentityFile'])) if o.get('IdentityFile') else None
@@ -136,16 +174,75 @@ def normalise_asyncssh(o, host, luser):
 
 
 def normalise_ssh(text):
-    n = {'sendenv': [], 'setenv': [], 'identityfile': [], 'proxyjump': None, 'hostkeyalias': None, 'bindaddress': None}
+    n = {'sendenv': [], 'setenv': [], 'identityfile': [], 'proxyjump': None, 'hostkeyalias': None, 'bindaddress': None,
+         'proxycommand': None, 'remotecommand': None}
     for line in text.splitlines():
         k, _, v = line.partition(' ')
         if k in ('sendenv', 'setenv', 'identityfile'):
             n[k].append(v)
         elif k in ('hostname', 'user', 'port', 'compression', 'forwardagent', 'passwordauthentication', 'tcpkeepalive',
                    'proxyjump', 'connecttimeout', 'serveraliveinterval', 'addressfamily', 'hostkeyalias',
-                   'bindaddress', 'requesttty'):
+                   'bindaddress', 'requesttty', 'proxycommand', 'remotecommand'):
             n[k] = v
     return n
+
+
+def _ssh_resolve(d, paths, host, user, port, tag):
+    """ssh -G on one file, or on a wrapper that Includes the files in order (= reading them one after the other,
+    each starting outside any block)"""
+    if len(paths) == 1:
+        f = paths[0]
+    else:
+        f = os.path.join(d, f'wrap_{tag}.conf')
+        with open(f, 'w') as fh:
+            fh.write(''.join(f'Include {p}\n' for p in paths))
+    cmd = [SSH, '-G', '-F', f]
+    if user is not None:
+        cmd += ['-l', user]
+    if port is not None:
+        cmd += ['-p', str(port)]
+    return subprocess.run(cmd + [host], capture_output=True, text=True, timeout=20, stdin=subprocess.DEVNULL, cwd=d)
+
+
+def _asyncssh(driver, jobs, repo, cwd, extra_env=None, timeout=300):
+    env = dict(os.environ, PYTHONPATH=repo)
+    env.update(extra_env or {})
+    pr = subprocess.run(['/venv/bin/python', '-c', driver], input=json.dumps(jobs), capture_output=True,
+                        text=True, env=env, cwd=cwd, timeout=timeout)
+    if pr.returncode != 0:
+        return None, pr.stderr[-300:]
+    return json.loads(pr.stdout), None
+
+
+def _compare(job, r, sp, texts):
+    """-> (compared?, violation|None)"""
+    desc = {'config': [texts[p] for p in job['paths']], 'host': job['host']}
+    if job['user'] is not None or job['port'] is not None:
+        desc['caller'] = {'user': job['user'], 'port': job['port']}
+    if sp.returncode != 0:
+        # ssh itself rejects the file: only a disagreement if asyncssh accepts it
+        if 'ok' in r:
+            return False, dict(desc, ssh='rejects: ' + sp.stderr[-200:], asyncssh='accepts')
+        return False, None
+    if 'err' in r:
+        return True, dict(desc, ssh='accepts', asyncssh=r['err'])
+    a = normalise_asyncssh(r['ok'], job['host'], job['user'] or job['luser'])
+    s = normalise_ssh(sp.stdout)
+    if a['identityfile'] is None:
+        a.pop('identityfile')
+        s.pop('identityfile')
+    # ssh's final pass re-reads the file and registers accumulating values a second time (ssh -G then prints SendEnv
+    # entries twice); duplicates carry no meaning: compared modulo duplicates, order preserved
+    for k in ('sendenv', 'setenv'):
+        a[k], s[k] = list(dict.fromkeys(a[k])), list(dict.fromkeys(s[k]))
+    low = ' '.join(texts[p] for p in job['paths']).lower()
+    if 'proxyjump' in low and 'proxycommand' in low:
+        # ssh lets the first of ProxyJump / ProxyCommand disable the other; asyncssh resolves that interplay outside
+        # the config layer (connection.py), so the two are only compared when a file uses one of them
+        for k in ('proxyjump', 'proxycommand'):
+            a.pop(k)
+    diff = {k: (a[k], s.get(k)) for k in a if a[k] != s.get(k)}
+    return True, (dict(desc, **{'differs (asyncssh, ssh)': diff}) if diff else None)
 
 
 def run(n_files, seed, repo):
@@ -158,59 +255,64 @@ def run(n_files, seed, repo):
     rnd = random.Random(1000 + seed)
     d = tempfile.mkdtemp(prefix='c18diff.')
     try:
-        jobs, texts = [], {}
+        jobs, texts, files = [], {}, []
         for i in range(n_files):
-            text = gen_config(rnd)
+            final_block = rnd.random() < 0.25
+            text = gen_config(rnd, final_block)
             p = os.path.join(d, f'c{i}.conf')
             with open(p, 'w') as f:
                 f.write(text)
             texts[p] = text
+            files.append((p, final_block))
+        for i, (p, final_block) in enumerate(files):
             for host in rnd.sample(HOSTS, 2):
-                jobs.append([p, host, luser])
+                paths = [p]
+                if not final_block and rnd.random() < 0.2 and not files[(i + 1) % len(files)][1]:
+                    paths = [p, files[(i + 1) % len(files)][0]]             # config=[a, b]
+                caller = rnd.random() < 0.25
+                jobs.append({'paths': paths, 'host': host, 'luser': luser,
+                             'user': rnd.choice(['carol', 'bob']) if caller else None,
+                             'port': rnd.choice([2022, 22]) if caller and rnd.random() < 0.7 else None})
         # hand-written files that are always part of the sample: Include (glob with two matches, read in place, a
-        # non-matching block at the end of an included file does not leak out) and the '=' forms of the tokenizer
+        # non-matching block at the end of an included file does not leak out), the '=' forms of the tokenizer
+        # (also inside Match criteria), and a trailing Match final resolved in two passes
         for fname, text in fixed_files(d).items():
             p = os.path.join(d, fname)
             with open(p, 'w') as f:
                 f.write(text)
             texts[p] = text
             if not fname.startswith('inc_'):
-                jobs.append([p, 'special', luser])
-        env = dict(os.environ, PYTHONPATH=repo)
-        pr = subprocess.run(['/venv/bin/python', '-c', ASYNCSSH_DRIVER], input=json.dumps(jobs), capture_output=True,
-                            text=True, env=env, cwd=d, timeout=300)
-        if pr.returncode != 0:
-            return {'name': name, 'cases': 0, 'violations': [], 'skipped': 'asyncssh driver failed: ' + pr.stderr[-300:]}
-        res = json.loads(pr.stdout)
+                jobs.append({'paths': [p], 'host': 'special', 'luser': luser, 'user': None, 'port': None})
+                jobs.append({'paths': [p], 'host': 'special', 'luser': luser, 'user': 'bob', 'port': 2022})
+        res, err = _asyncssh(ASYNCSSH_DRIVER, jobs, repo, d)
+        if res is None:
+            return {'name': name, 'cases': 0, 'violations': [], 'skipped': 'asyncssh driver failed: ' + err}
         violations, compared = [], 0
-        for (p, host, _lu), r in zip(jobs, res):
-            sp = subprocess.run([SSH, '-G', '-F', p, host], capture_output=True, text=True, timeout=20,
-                                stdin=subprocess.DEVNULL, cwd=d)
-            if sp.returncode != 0:
-                # ssh itself rejects the generated file: only a disagreement if asyncssh accepts it
-                if 'ok' in r:
-                    violations.append({'config': texts[p], 'host': host, 'ssh': 'rejects: ' + sp.stderr[-200:],
-                                       'asyncssh': 'accepts'})
-                continue
-            compared += 1
-            if 'err' in r:
-                violations.append({'config': texts[p], 'host': host, 'ssh': 'accepts', 'asyncssh': r['err']})
-                continue
-            a, s = normalise_asyncssh(r['ok'], host, luser), normalise_ssh(sp.stdout)
-            if a['identityfile'] is None:
-                a.pop('identityfile')
-                s.pop('identityfile')
-            diff = {k: (a[k], s.get(k)) for k in a if a[k] != s.get(k)}
-            if diff:
-                violations.append({'config': texts[p], 'host': host, 'differs (asyncssh, ssh)': diff})
+        for n, (job, r) in enumerate(zip(jobs, res)):
+            sp = _ssh_resolve(d, job['paths'], job['host'], job['user'], job['port'], n)
+            done, v = _compare(job, r, sp, texts)
+            compared += done
+            if v:
+                violations.append(v)
         return {'name': name, 'cases': compared, 'violations': violations, 'skipped': None, 'seed': seed}
     finally:
         shutil.rmtree(d, ignore_errors=True)
 
 
+# ---------------------------------------------------------------- single hand-written files, one entry per deviation
 FIXED = [
-    ('C18.bounded(Host line argument containing a comma, vs ssh -G)', 'Host gw1,special\n  Port 2222\n', 'special'),
-    ('C18.bounded(trailing # comment after the arguments, vs ssh -G)', 'Host *\n  Port 2222 # note\n', 'special'),
+    ('C18.bounded(Host line argument containing a comma, vs ssh -G)', 'Host gw1,special\n  Port 2222\n'),
+    ('C18.bounded(trailing # comment after the arguments, vs ssh -G)', 'Host *\n  Port 2222 # note\n'),
+    ("C18.bounded(verbatim keyword written with '=': ProxyCommand=cmd / RemoteCommand = cmd, vs ssh -G)",
+     'ProxyCommand=nc -q0 gw 22\nRemoteCommand = uptime\n'),
+    ("C18.bounded(Match exec with a quoted command containing '=', vs ssh -G)",
+     'Match exec "test a=a"\n  Port 2222\n'),
+    ('C18.bounded(final pass keeps the values obtained in the first pass, vs ssh -G)',
+     'Match final\n  Port 2200\nHost *\n  Port 22\n'),
+    ('C18.bounded(Match canonical also holds in the final pass, vs ssh -G)',
+     'Match canonical\n  HostKeyAlias canon\nMatch final\n  ConnectTimeout 5\n'),
+    ('C18.bounded(Match host / originalhost patterns are lower-cased before matching, vs ssh -G)',
+     'Match originalhost Special\n  Port 2222\n'),
 ]
 
 
@@ -221,89 +323,212 @@ def run_fixed(repo):
         return out
     d = tempfile.mkdtemp(prefix='c18fix.')
     try:
-        for i, (name, text, host) in enumerate(FIXED):
+        for i, (name, text) in enumerate(FIXED):
             p = os.path.join(d, f'f{i}.conf')
             with open(p, 'w') as f:
                 f.write(text)
-            env = dict(os.environ, PYTHONPATH=repo)
-            pr = subprocess.run(['/venv/bin/python', '-c', ASYNCSSH_DRIVER], input=json.dumps([[p, host, 'me']]),
-                                capture_output=True, text=True, env=env, cwd=d, timeout=60)
-            sp = subprocess.run([SSH, '-G', '-F', p, host], capture_output=True, text=True, timeout=20,
-                                stdin=subprocess.DEVNULL, cwd=d)
+            job = {'paths': [p], 'host': 'special', 'luser': 'me', 'user': None, 'port': None}
             ent = {'name': name, 'cases': 1, 'violations': [], 'skipped': None}
-            if pr.returncode != 0 or sp.returncode != 0:
-                ent['skipped'] = 'driver failed'
-                out.append(ent)
-                continue
-            r = json.loads(pr.stdout)[0]
-            sport = normalise_ssh(sp.stdout).get('port')
-            aport = str(r['ok'].get('Port', 22)) if 'ok' in r else r['err']
-            if aport != sport:
-                ent['violations'].append({'config': text, 'host': host, 'asyncssh port': aport, 'ssh -G port': sport})
+            res, err = _asyncssh(ASYNCSSH_DRIVER, [job], repo, d, timeout=60)
+            sp = _ssh_resolve(d, [p], 'special', None, None, i)
+            if res is None or sp.returncode != 0:
+                ent['skipped'] = 'driver failed: ' + (err or sp.stderr[-200:])
+            else:
+                _done, v = _compare(dict(job, luser=normalise_ssh(sp.stdout).get('user')), res[0], sp, {p: text})
+                if v:
+                    ent['violations'].append(v)
             out.append(ent)
         return out
     finally:
         shutil.rmtree(d, ignore_errors=True)
 
 
-# ---------------------------------------------------------------- file-level structure: several files, Include, reuse
+# ---------------------------------------------------------------- expansion and load structure (documented results)
 LOAD_DRIVER = r'''
-import json, sys
+import json, os, sys
 from asyncssh.config import SSHClientConfig
 jobs = json.load(sys.stdin)
 out = []
-def load(last, paths):
-    return SSHClientConfig.load(last, paths, False, False, False, 'luser', 'ruser', 'myhost', 22)
+def load(last, paths, reload=False, user='ruser', port=22):
+    return SSHClientConfig.load(last, paths, reload, False, False, 'luser', user if user is not None else (),
+                                'myhost', port if port is not None else ())
 for job in jobs:
     try:
+        kw = {'user': job.get('user', 'ruser'), 'port': job.get('port', 22)}
         if job['kind'] == 'chain':
-            c = load(load(None, job['first']), job['paths'])
+            first = load(None, job['first'], **job.get('first_kw', kw))
+            before = {k: first.get(k) for k in job['keys']}
+            c = load(first, job['paths'], job.get('reload', False), **kw)
+            after = {k: first.get(k) for k in job['keys']}
+            out.append({'ok': {k: c.get(k) for k in job['keys']}, 'first config unchanged': before == after})
         else:
-            c = load(None, job['paths'])
-        out.append({'ok': {k: c.get(k) for k in job['keys']}})
+            c = load(None, job['paths'], **kw)
+            out.append({'ok': {k: c.get(k) for k in job['keys']}})
     except Exception as e:
         out.append({'err': type(e).__name__ + ': ' + str(e)})
 json.dump(out, sys.stdout)
 '''
 
-EXPAND_ONCE = 'C18.bounded(each value is percent-expanded exactly once per load: several files, Include, previous config)'
+
+def _entry(name, cases):
+    return {'name': 'C18.bounded(' + name + ')', 'cases': cases, 'violations': [], 'skipped': None}
 
 
-def run_expand_once(repo):
-    """A value must not depend on how many OTHER files are read after it: the options a file sets resolve to the
-    same values when a second (unrelated) file follows, when the file is reached through Include, and when a later
-    config is loaded on top of the resulting object.  Reference = the single-file result."""
-    d = tempfile.mkdtemp(prefix='c18once.')
+def run_expansion(repo):
+    """-> list of entries.  Reference results are the documented expansions (docs/api.rst token table,
+    ssh_config(5) TOKENS / ENVIRONMENT VARIABLES); ssh -G cannot be the oracle here (it prints values unexpanded)."""
+    d = tempfile.mkdtemp(prefix='c18exp.')
     try:
         def w(name, text):
             p = os.path.join(d, name)
             with open(p, 'w') as f:
                 f.write(text)
             return p
-        body = 'IdentityFile /k/%%h_%h\nCertificateFile /c/100%%\nRemoteCommand echo %%r %r\n'
-        keys = ['IdentityFile', 'CertificateFile', 'RemoteCommand']
-        a = w('a.conf', body)
-        b = w('b.conf', 'Port 2222\n')
-        main = w('main.conf', f'Include {a}\nPort 2222\n')
-        jobs = [{'kind': 'plain', 'paths': [a], 'keys': keys},
-                {'kind': 'plain', 'paths': [a, b], 'keys': keys},
-                {'kind': 'plain', 'paths': [main], 'keys': keys},
-                {'kind': 'chain', 'first': [a], 'paths': [b], 'keys': keys}]
-        labels = ['single file', 'config=[a, b]', 'Include a', 'b loaded on top of the config object of a']
-        pr = subprocess.run(['/venv/bin/python', '-c', LOAD_DRIVER], input=json.dumps(jobs), capture_output=True,
-                            text=True, env=dict(os.environ, PYTHONPATH=repo), cwd=d, timeout=60)
-        ent = {'name': EXPAND_ONCE, 'cases': 3, 'violations': [], 'skipped': None}
-        if pr.returncode != 0:
-            ent['skipped'] = 'driver failed: ' + pr.stderr[-300:]
+        env = {'C18_A': 'va', 'C18_B': 'vb', 'HOME': d}
+        os.makedirs(os.path.join(d, '.ssh'))
+        # ---- one file: every documented token / environment reference, in every documented keyword
+        single = ('IdentityFile /k/%h_%n_%p_%r_%u_%%\nIdentityFile ${C18_A}/x/${C18_B}\nCertificateFile /c/%r\n'
+                  'IdentityAgent /run/%u.sock\nRemoteCommand echo %h ${C18_A}\nProxyCommand nc -X %r %h %p\n'
+                  'Hostname %h.example.com\n')
+        want_single = {'IdentityFile': ['/k/myhost.example.com_myhost_22_ruser_luser_%', 'va/x/vb'],
+                       'CertificateFile': ['/c/ruser'], 'IdentityAgent': '/run/luser.sock',
+                       'RemoteCommand': 'echo myhost.example.com va',
+                       'ProxyCommand': 'nc -X ruser myhost.example.com 22', 'Hostname': 'myhost.example.com'}
+        # ---- values on which a second expansion is visible ('%%' and a token next to it)
+        twice_body = 'IdentityFile /k/%%h_%h\nCertificateFile /c/100%%p\nRemoteCommand echo %%r %r\n'
+        twice_keys = ['IdentityFile', 'CertificateFile', 'RemoteCommand']
+        want_twice = {'IdentityFile': ['/k/%h_myhost'], 'CertificateFile': ['/c/100%p'], 'RemoteCommand': 'echo %r ruser'}
+        a, b = w('a.conf', twice_body), w('b.conf', 'ConnectTimeout 9\n')
+        main = w('main.conf', f'Include {a}\nConnectTimeout 9\n')
+        # ---- tokens must be those of the FINAL option map (ssh expands when the value is used)
+        inc = w('inc.conf', 'IdentityFile /k/%h_%r_%p\n')
+        late = w('late.conf', f'Include {inc}\nHostname real.example.com\nUser bob\nPort 2200\n')
+        jobs = [{'kind': 'plain', 'paths': [w('single.conf', single)], 'keys': list(want_single)},
+                {'kind': 'plain', 'paths': [a], 'keys': twice_keys},
+                {'kind': 'plain', 'paths': [a, b], 'keys': twice_keys},
+                {'kind': 'plain', 'paths': [main], 'keys': twice_keys},
+                {'kind': 'chain', 'first': [a], 'paths': [b], 'keys': twice_keys},
+                {'kind': 'plain', 'paths': [late], 'keys': ['IdentityFile'], 'user': None, 'port': None}]
+        res, err = _asyncssh(LOAD_DRIVER, jobs, repo, d, env, timeout=60)
+        ents = [_entry('expansion/single file: every documented token and ${VAR} expands as documented', 2),
+                _entry('expand-once/config=[a, b]: a value of the first file is expanded once', 1),
+                _entry('expand-once/Include: a value of an included file is expanded once', 1),
+                _entry('expand-once/config loaded on top of a previous config: an inherited value is not expanded again', 1),
+                _entry('expansion timing/Include then Hostname, User, Port: tokens are those of the final option map', 1)]
+        if res is None:
+            for e in ents:
+                e['skipped'] = 'driver failed: ' + err
+            return ents
+        for r, want, text in ((res[0], want_single, single), (res[1], want_twice, twice_body)):
+            if r.get('ok') != want:
+                ents[0]['violations'].append({'file': text, 'documented': want, 'asyncssh': r})
+        for e, r, how in zip(ents[1:4], res[2:5], ('config=[a, b]', 'Include a', 'b loaded on top of config(a)')):
+            if r.get('ok') != want_twice:
+                e['violations'].append({'file a': twice_body, 'how': how, 'documented (= single file)': want_twice,
+                                        'asyncssh': r})
+        want_late = {'IdentityFile': ['/k/real.example.com_bob_2200']}
+        if res[5].get('ok') != want_late:
+            ents[4]['violations'].append({'included file': 'IdentityFile /k/%h_%r_%p', 'then': 'Hostname real.example.com'
+                                          ' / User bob / Port 2200', 'ssh uses': want_late, 'asyncssh': res[5]})
+        return ents
+    finally:
+        shutil.rmtree(d, ignore_errors=True)
+
+
+def run_load_structure(repo):
+    """What load() / the constructors do around parse(): several files are read in order, a config loaded on top of a
+    previous one inherits its options (reload=True: only what the previous one had inherited itself), never writes to
+    the previous object, caller-supplied user / port win over everything, a relative Include is looked up in ~/.ssh
+    and '~' is expanded.  Values are chosen so that the double expansion (recorded separately) is invisible."""
+    d = tempfile.mkdtemp(prefix='c18load.')
+    try:
+        def w(name, text):
+            p = os.path.join(d, name)
+            os.makedirs(os.path.dirname(p), exist_ok=True)
+            with open(p, 'w') as f:
+                f.write(text)
+            return p
+        keys = ['Port', 'User', 'HostKeyAlias', 'BindAddress', 'IdentityFile', 'SendEnv', 'ConnectTimeout']
+        a = w('a.conf', 'HostKeyAlias fromA\nIdentityFile /k/a_%h\nSendEnv A\nConnectTimeout 5\n')
+        b = w('b.conf', 'HostKeyAlias fromB\nBindAddress 10.0.0.2\nIdentityFile /k/b\nSendEnv B\nHost nomatch\n  Port 9\n')
+        c = w('c.conf', 'ConnectTimeout 7\n')
+        w('.ssh/rel.conf', 'HostKeyAlias relative\n')
+        w('home.conf', 'BindAddress 10.7.7.7\n')
+        inc = w('inc.conf', 'Include rel.conf\nInclude ~/home.conf\nConnectTimeout 3\n')
+        base = {'Port': 22, 'User': 'ruser', 'HostKeyAlias': None, 'BindAddress': None, 'IdentityFile': None,
+                'SendEnv': None, 'ConnectTimeout': None}
+        ab = dict(base, HostKeyAlias='fromA', BindAddress='10.0.0.2', IdentityFile=['/k/a_myhost', '/k/b'],
+                  SendEnv=['A', 'B'], ConnectTimeout=5)
+        cases = [
+            ('config=[a, b]: read in order, every file starts outside any block',
+             {'kind': 'plain', 'paths': [a, b], 'keys': keys}, ab),
+            ('config=[b, a]', {'kind': 'plain', 'paths': [b, a], 'keys': keys},
+             dict(ab, HostKeyAlias='fromB', IdentityFile=['/k/b', '/k/a_myhost'], SendEnv=['B', 'A'])),
+            ('b loaded on top of config(a): inherits a, first value still wins',
+             {'kind': 'chain', 'first': [a], 'paths': [b], 'keys': keys}, ab),
+            ('reload=True on top of config(a): starts from what config(a) had inherited (nothing)',
+             {'kind': 'chain', 'first': [a], 'paths': [b], 'reload': True, 'keys': keys},
+             dict(base, HostKeyAlias='fromB', BindAddress='10.0.0.2', IdentityFile=['/k/b'], SendEnv=['B'])),
+            ('caller-supplied user / port win over the file and over an inherited value',
+             {'kind': 'chain', 'first': [w('p.conf', 'Port 2222\nUser cfg\n')], 'paths': [c], 'keys': keys,
+              'first_kw': {'user': None, 'port': None}, 'user': 'carol', 'port': 2022},
+             dict(base, Port=2022, User='carol', ConnectTimeout=7)),
+            ('no caller-supplied user / port: the file decides',
+             {'kind': 'plain', 'paths': [w('q.conf', 'Port 2222\nUser cfg\n')], 'keys': keys, 'user': None, 'port': None},
+             dict(base, Port=2222, User='cfg')),
+            ('relative Include is looked up in ~/.ssh, ~ is expanded',
+             {'kind': 'plain', 'paths': [inc], 'keys': keys},
+             dict(base, HostKeyAlias='relative', BindAddress='10.7.7.7', ConnectTimeout=3)),
+        ]
+        ent = _entry('load structure: several files in order, chained load, reload, caller user / port, Include base '
+                     'and ~', len(cases))
+        res, err = _asyncssh(LOAD_DRIVER, [j for _n, j, _w in cases], repo, d, {'HOME': d}, timeout=60)
+        if res is None:
+            ent['skipped'] = 'driver failed: ' + err
             return ent
-        res = json.loads(pr.stdout)
-        ref = res[0]
-        expect = {'IdentityFile': ['/k/%h_myhost'], 'CertificateFile': ['/c/100%'], 'RemoteCommand': 'echo %r ruser'}
-        if ref.get('ok') != expect:
-            ent['violations'].append({'file a': body, 'how': labels[0], 'documented expansion': expect, 'asyncssh': ref})
-        for lab, r in list(zip(labels, res))[1:]:
-            if r != ref:
-                ent['violations'].append({'file a': body, 'how': lab, 'single-file result': ref, 'asyncssh': r})
+        for (what, job, want), r in zip(cases, res):
+            if r.get('ok') != want or r.get('first config unchanged') is False:
+                ent['violations'].append({'case': what, 'expected': want, 'asyncssh': r})
         return ent
     finally:
         shutil.rmtree(d, ignore_errors=True)
+
+
+OPTIONS_DRIVER = r'''
+import json, sys, getpass
+import asyncssh
+path, = json.load(sys.stdin)
+getpass.getuser = lambda: 'luser'
+try:
+    o = asyncssh.SSHClientConnectionOptions(config=[path], username='ruser', host='myhost', known_hosts=None,
+                                            client_keys=[])
+    json.dump({'ok': {'port': o.port, 'username': o.username}}, sys.stdout)
+except Exception as e:
+    json.dump({'err': type(e).__name__ + ': ' + str(e)}, sys.stdout)
+'''
+
+
+def run_options_roles(repo):
+    """connection.py hands the LOCAL user name and the REMOTE user name to the config in the right roles:
+    `Match user` sees the remote one, `Match localuser` and %u the local one"""
+    d = tempfile.mkdtemp(prefix='c18opt.')
+    try:
+        p = os.path.join(d, 'o.conf')
+        with open(p, 'w') as f:
+            f.write('Match user luser\n  Port 1\nMatch localuser ruser\n  Port 2\n'
+                    'Match user ruser localuser luser\n  Port 2201\n')
+        ent = _entry('connection options: local and remote user reach the config in their own roles', 1)
+        res, err = _asyncssh(OPTIONS_DRIVER, [p], repo, d, timeout=60)
+        if res is None:
+            ent['skipped'] = 'driver failed: ' + err
+        elif res.get('ok', {}).get('port') != 2201:
+            ent['violations'].append({'config': open(p).read(), 'username': 'ruser', 'local user': 'luser',
+                                      'expected port': 2201, 'asyncssh': res})
+        return ent
+    finally:
+        shutil.rmtree(d, ignore_errors=True)
+
+
+def run_all(n_files, seed, repo):
+    return ([run(n_files, seed, repo)] + run_fixed(repo) + run_expansion(repo) +
+            [run_load_structure(repo), run_options_roles(repo)])
